@@ -7,7 +7,7 @@ CLAIMS = {
     "C15": dict(
         category="proof",
         technique="whole-program effect/type scan over resolved MIR (rustc_private driver) + trait-solver facts + compile_fail witnesses",
-        text="Absence proof over every polymorphic and monomorphic MIR body and every type definition of the crate: unsafe_code is forbid and no user unsafe item exists; no mutable, interior-mutable or thread-local static and no reference to one; a deep walk over instantiated field types finds no UnsafeCell behind any crate type; the trait solver proves Send+Sync for every exported ADT (re-checked by a generated compile-pass witness next to an Rc<u8> compile_fail control); every resolved extern callee and every function value is classified by defining crate/module (core/alloc pure except cell/atomic/rc/volatile; std ambient by default with a two-row ambient table: the clock in one function, fs::read in the default reader closure); fn-pointer/virtual calls only through capability-typed values (fn-pointer types of fields of public types, which the user supplies) or through crate-internal dispatch types (a fn-pointer type that occurs in no signature or field nameable from outside the crate and whose every value is made by coercing a crate function or closure). Quick analyses the default configuration, thorough all three feature sets. This decides the property as stated: with no shared mutable state reachable, every call is a function of its arguments, so any interleaving yields what each call yields alone.",
+        text="Absence proof over every polymorphic and monomorphic MIR body and every type definition of the crate: unsafe_code is forbid and no user unsafe item exists; no mutable, interior-mutable or thread-local static and no reference to one; a deep walk over instantiated field types finds no UnsafeCell behind any crate type; the trait solver proves Send+Sync for every exported ADT (re-checked by a generated compile-pass witness next to an Rc<u8> compile_fail control); every resolved extern callee and every function value is classified by defining crate/module (core/alloc pure except cell/atomic/rc/volatile; std ambient by default with a two-row ambient table: the clock only in functions reachable from no public function other than UtcDateTime::now, DateTime::now and TimeZone::find_current_local_time_type, fs::read in the default reader closure); fn-pointer/virtual calls only through capability-typed values (fn-pointer types of fields of public types, which the user supplies) or through crate-internal dispatch types (a fn-pointer type that occurs in no signature or field nameable from outside the crate and whose every value is made by coercing a crate function or closure). Quick analyses the default configuration, thorough all three feature sets. This decides the property as stated: with no shared mutable state reachable, every call is a function of its arguments, so any interleaving yields what each call yields alone.",
         note="Trusted: rustc's type/borrow checker, trait solver and MIR; the exporter's serialisation; the classification of core/alloc as pure outside the deny-list; std internals of classified-pure APIs. User callbacks and the system clock are intended ambient inputs.",
         design_ref="DESIGN.md §4.1, §4.2, §5/C15",
     ),
